@@ -16,6 +16,8 @@ import NumbersModel.Gen.TrDec128
 import NumbersModel.Gen.TrMerge
 import NumbersModel.Gen.TrEdit
 import NumbersModel.Gen.TrCache
+import NumbersModel.Gen.TrTok
+import NumbersModel.Drv.Tokenizer
 import NumbersModel.Drv.Addressing
 import NumbersModel.Model.DateFmt
 
@@ -170,6 +172,20 @@ def handleTrCache : List String → Option String
       " ".intercalate (p.1.map toString) ++ " | " ++ toString p.2.length) r)
   | _ => none
 
+/-- `assertempty <n> <piece>*` → `ok` / `err TokenizerError`; `savetoken <n> <piece>*` (on an empty item list) →
+    `ok <tokens as in Drv/Tokenizer> | <number of pieces left>` -/
+def handleTrTok : List String → Option String
+  | "assertempty" :: n :: rest => do
+    let n ← n.toNat?
+    let ps ← (rest.take n).mapM parseText
+    pure (showPyM (fun (_ : Unit) => "") (assert_empty_token ps))
+  | "savetoken" :: n :: rest => do
+    let n ← n.toNat?
+    let ps ← (rest.take n).mapM parseText
+    pure (showPyM (fun (r : Unit × List Tokenizer.Tok × List Text) =>
+      " ".intercalate (r.2.1.map showTok) ++ " | " ++ toString r.2.2.length) (save_token [] ps))
+  | _ => none
+
 /-- the operators of `Py/Trans.lean` themselves, so that the meaning the translator gives to `& | << >> // %` and
     `int(a / b)` / `int(ceil(a / c))` is compared with CPython on signed operands -/
 def handlePyOps : List String → Option String
@@ -205,6 +221,7 @@ def trDispatch (line : String) : String :=
     | "py" :: rest => handlePyOps rest
     | "edit" :: rest => handleTrEdit rest
     | "cache" :: rest => handleTrCache rest
+    | "tokbuf" :: rest => handleTrTok rest
     | _ => none
   match r with
   | some s => s
